@@ -61,7 +61,7 @@ def rot(c, s, tx, ty, p):
 def gen_cpp_cases(ctx):
     r = ctx.rng('cpp')
     out = []
-    for _ in range(ctx.n(260, 4000)):
+    for _ in range(ctx.n(260, 3000)):
         L = 10.0 ** r.uniform(-2, 1)
         ang = r.uniform(0, 2 * math.pi)
         a = (r.uniform(-2, 2), r.uniform(-2, 2))
@@ -78,7 +78,7 @@ def gen_cpp_cases(ctx):
             p = a if t == 0.0 else b
         out.append((a, b, p, 'rand%d' % mode))
     # exact-switch stream: axis aligned dyadic data, everything computes without rounding
-    for _ in range(ctx.n(40, 400)):
+    for _ in range(ctx.n(40, 200)):
         k = r.randrange(-3, 4)
         Lx = math.ldexp(r.randrange(1, 9), k)
         a = (math.ldexp(r.randrange(-8, 9), k), math.ldexp(r.randrange(-8, 9), k))
@@ -99,7 +99,7 @@ def gen_pairs(ctx):
     """segment pairs for the mortar model: (A0, A1, B0, B1, kind)"""
     r = ctx.rng('mortar')
     out = []
-    for _ in range(ctx.n(150, 2500)):
+    for _ in range(ctx.n(150, 1400)):
         LA = 10.0 ** r.uniform(-1, 1)
         LB = LA * 10.0 ** r.uniform(-1, 1)
         ang = r.uniform(0, 2 * math.pi)
@@ -133,7 +133,7 @@ def gen_pairs(ctx):
         out.append((a0, a1, b0, b1, kind))
     # node-aligned pairs (conforming meshes): end points of B lie exactly on the normals through end points of A before a
     # rotation by a generic angle, so the projected parameters are 0 or 1 up to rounding (known finding C16-F2 lives here)
-    for _ in range(ctx.n(60, 3000)):
+    for _ in range(ctx.n(60, 1000)):
         L = r.choice([1.0, 0.5, 2.0, r.uniform(0.1, 3)])
         h = r.uniform(0.01, 0.3)
         mode = r.randrange(3)
@@ -144,7 +144,7 @@ def gen_pairs(ctx):
         q = [rot(*mot, p) for p in pts]
         out.append((q[0], q[1], q[2], q[3], 'aligned'))
     # exact stream: axis-aligned dyadic pairs (exact arithmetic on both sides): shared end projections, touching, nested, none
-    for _ in range(ctx.n(40, 400)):
+    for _ in range(ctx.n(40, 150)):
         k = r.randrange(-2, 3)
         u = lambda lo, hi: math.ldexp(r.randrange(lo, hi), k - 2)
         LA = u(2, 17)
@@ -385,7 +385,7 @@ def correspondence(ctx, model_ok):
     # rigid-motion invariance on the implementation (exact Pythagorean rotations)
     r = ctx.rng('rigid')
     rc = []
-    for (a, b, p, kind) in cases[:ctx.n(150, 1500)]:
+    for (a, b, p, kind) in cases[:ctx.n(150, 800)]:
         x, y, z = r.choice(PYTH)
         c, s = x / z, y / z
         tx, ty = math.ldexp(r.randrange(-16, 17), -2), math.ldexp(r.randrange(-16, 17), -2)
@@ -407,11 +407,12 @@ def correspondence(ctx, model_ok):
             ctx.fail('conclusion', 'closest point does not move with the rigid motion %r' % (mot,), case=dict(fn='cpp_rigid', a=a, b=b, p=p, motion=mot), concrete=True)
     ctx.count('sign_unstable_cases_skipped', unstable)
 
+    ctx.log('closest-point conclusions done')
     # ================= several edges: get_closest_distance, smooth_distance =================
     jnp = I['jnp']
     poly = []
     rp = ctx.rng('poly')
-    for _ in range(ctx.n(60, 600)):
+    for _ in range(ctx.n(60, 150)):
         n = rp.randrange(2, 6)
         pts = [(rp.uniform(-1, 1), rp.uniform(-1, 1))]
         for _k in range(n):
@@ -435,7 +436,7 @@ def correspondence(ctx, model_ok):
                      case=dict(fn='closest', pts=pts, p=p), concrete=True)
     # smooth_distance: tie of the generated kernel + rigid invariance
     sd = []
-    for _ in range(ctx.n(80, 800)):
+    for _ in range(ctx.n(80, 300)):
         ang = rp.uniform(0, 2 * math.pi)
         L0, L1 = 10 ** rp.uniform(-1, 0.5), 10 ** rp.uniform(-1, 0.5)
         v = (rp.uniform(-1, 1), rp.uniform(-1, 1))
@@ -464,6 +465,7 @@ def correspondence(ctx, model_ok):
                 ctx.fail('conclusion', 'smooth_distance not invariant under the rigid motion %r: %r -> %r' % (sd_rot[i][4], sd_impl[i], sd_impl2[i]),
                          case=dict(fn='smooth_distance_rigid', e0=e0, e1=e1, p=p, tol=tol_, motion=sd_rot[i][4]), concrete=True)
 
+    ctx.log('polyline / smooth_distance done')
     # ================= mortar =================
     pairs = gen_pairs(ctx)
     rl = ctx.rng('lsmooth')
@@ -549,13 +551,16 @@ def correspondence(ctx, model_ok):
     ctx.cov['mortar_pair_kinds'] = kinds
     ctx.count('mortar_unstable_or_ill_conditioned', sum(1 for v in stable.values() if not v))
 
+    ctx.log('mortar conclusions done')
     # ================= level sets and penalty energy on real meshes =================
     mesh_cases = mesh_checks(ctx, model_ok)
     evals += mesh_cases
+    ctx.log('mesh level-set / penalty done')
     # ================= assembled nodal areas / gaps =================
     asm = assembly_checks(ctx)
     evals += asm['n']
 
+    ctx.log('assembly done')
     ctx.count('evaluations', evals)
     ctx.count('distinct_nontrivial', len(distinct))
     ctx.sample(dict(fn='cpp_distance', a=cases[0][0], b=cases[0][1], p=cases[0][2], impl=out['d'][0]))
@@ -657,6 +662,7 @@ def correspondence(ctx, model_ok):
                 tolj = (1e-14 if kind == 'exact' else 1e-10 / cond) * sc * (1 + gsc * gsc)
                 if not C.close(v[8 + j], w, rtol=0, atol=tolj):
                     bad('integrate_with_mortar[%s] (%s)' % (fn, rn), (a0, a1, b0, b1, ls[i]), v[8 + j], w, tolj, case)
+    ctx.log('model evaluated and compared')
     ctx.count('model_vs_impl_comparisons', k)
     ctx.count('mortar_cases_compared_in_full', idx_cmp)
     ctx.count('model_vs_impl_mismatches', mism)
@@ -674,7 +680,7 @@ def mesh_checks(ctx, model_ok):
     r = ctx.rng('mesh')
     n = 0
     exprs, wants, metas = [], [], []
-    for trial in range(ctx.n(6, 40)):
+    for trial in range(ctx.n(6, 15)):
         Nx, Ny = r.randrange(2, 6), r.randrange(2, 5)
         xe, ye = (0.0, r.uniform(0.5, 3.0)), (0.0, r.uniform(0.5, 2.0))
         mesh = I['Mesh'].construct_structured_mesh(Nx, Ny, xe, ye)
@@ -758,7 +764,7 @@ def assembly_checks(ctx):
     MC = I['MC']
     r = ctx.rng('asm')
     n = 0
-    for trial in range(ctx.n(4, 30)):
+    for trial in range(ctx.n(4, 8)):
         nA, nB = r.randrange(2, 6), r.randrange(2, 6)
         LA, LB = r.uniform(1, 3), r.uniform(1, 3)
         h = r.uniform(0.05, 0.5) * r.choice([1, 1, -1])
